@@ -3,6 +3,7 @@ import Gofasta.Props.C04
 import Gofasta.Lemmas.AACalls
 import Gofasta.Lemmas.SortSpec
 import Gofasta.Lemmas.TopK
+import Gofasta.Lemmas.GffRowOrder
 /-
 C14, lifted from position lists to whole regions and to what the mutation caller receives.
 
@@ -15,6 +16,7 @@ genes by ascending start.
 -/
 namespace Gofasta.Lemmas.RegionEquiv
 open Gofasta Model Gofasta.Props.C14
+open Gofasta.Lemmas.GffRowOrder (Ascending sortRows_of_sorted regionFromGFF_eq regionOfSorted)
 
 /-! ### one gene, described once -/
 
@@ -73,6 +75,10 @@ def region (g : Gene) : Region := ⟨g.name, g.strand, g.positions, g.tr ++ [42]
 def Offset : Gene → Prop
   | .fwd _ k s0 _ _ => k ≤ s0.2 + 1 - s0.1
   | .rev _ k _ last _ => k ≤ last.2 + 1 - last.1 ∧ k ≤ last.2
+
+/-- the segments (hence the GFF rows) are listed by non-decreasing genomic start: what makes `rows` the order in
+which CDSRegion2fromGFF (which since fix a19382f sorts the rows of a feature by start) reads them -/
+def AscStarts (g : Gene) : Prop := g.segs.Pairwise (fun s t => s.1 ≤ t.1)
 
 /-- the location runs in the direction of its strand: what CDSRegion2fromGenbank reads the strand from -/
 def Oriented : Gene → Prop
@@ -157,7 +163,7 @@ theorem genbank_region (f : GbFeature) (g : Gene) (hd : Describes f g) (ho : g.O
 
 /-! ### the GFF route on one group of rows -/
 
-theorem gff_plus (r0 : GffRow) (t : List GffRow) (ref : List Nat) (h0 : r0.strand = "+")
+theorem gff_plus (r0 : GffRow) (t : List GffRow) (ref : List Nat) (hs : Ascending (r0 :: t)) (h0 : r0.strand = "+")
     (ht : ∀ r ∈ t, r.strand = "+") :
     regionFromGFF (r0 :: t) ref =
       (translateGo true (refBasesAt ref (fwdPositionsGff (r0 :: t)))).map
@@ -168,8 +174,9 @@ theorem gff_plus (r0 : GffRow) (t : List GffRow) (ref : List Nat) (h0 : r0.stran
     rcases List.mem_cons.1 hr with rfl | hr
     · simp [h0]
     · simp [ht r hr]
-  unfold regionFromGFF
-  simp only []
+  rw [regionFromGFF_eq, sortRows_of_sorted _ hs]
+  unfold regionOfSorted
+  simp only [List.head?_cons]
   split
   · rw [if_neg (by rw [hany]; simp)]
     show (match translateGo true (refBasesAt ref (fwdPositionsGff (r0 :: t))) with
@@ -179,7 +186,7 @@ theorem gff_plus (r0 : GffRow) (t : List GffRow) (ref : List Nat) (h0 : r0.stran
   · rename_i h; rw [h0] at h; simp at h
   · rename_i h1 h2; exact absurd h0 h1
 
-theorem gff_minus (r0 : GffRow) (t : List GffRow) (ref : List Nat) (h0 : r0.strand = "-")
+theorem gff_minus (r0 : GffRow) (t : List GffRow) (ref : List Nat) (hs : Ascending (r0 :: t)) (h0 : r0.strand = "-")
     (ht : ∀ r ∈ t, r.strand = "-") :
     regionFromGFF (r0 :: t) ref =
       (translateGo true (complement (refBasesAt ref (revPositionsGff (r0 :: t))))).map
@@ -190,8 +197,9 @@ theorem gff_minus (r0 : GffRow) (t : List GffRow) (ref : List Nat) (h0 : r0.stra
     rcases List.mem_cons.1 hr with rfl | hr
     · simp [h0]
     · simp [ht r hr]
-  unfold regionFromGFF
-  simp only []
+  rw [regionFromGFF_eq, sortRows_of_sorted _ hs]
+  unfold regionOfSorted
+  simp only [List.head?_cons]
   split
   · rename_i h; rw [h0] at h; simp at h
   · rw [if_neg (by rw [hany]; simp)]
@@ -201,17 +209,35 @@ theorem gff_minus (r0 : GffRow) (t : List GffRow) (ref : List Nat) (h0 : r0.stra
     cases translateGo true (complement (refBasesAt ref (revPositionsGff (r0 :: t)))) <;> rfl
   · rename_i h1 h2; exact absurd h0 h2
 
-/-- the GFF route on the conformant rows of a gene: succeeds iff the reference translates, and then builds the
-region with the gene's name, strand and positions and the computed translation -/
-theorem gff_region (g : Gene) (ref : List Nat) (hoff : g.Offset) :
+/-- the rows of a gene with ascending starts are listed by non-decreasing start -/
+theorem rows_ascending (g : Gene) (h : g.AscStarts) : Ascending g.rows := by
+  cases g with
+  | fwd n k s0 rest t =>
+    have h' : (((s0, k) :: rest).map (·.1)).Pairwise (fun s t => s.1 ≤ t.1) := h
+    show (((s0, k) :: rest).map (contRow n)).Pairwise (fun a b => a.start ≤ b.start)
+    rw [List.pairwise_map] at h' ⊢
+    exact h'
+  | rev n k init last t =>
+    have h' : ((init ++ [(last, k)]).map (·.1)).Pairwise (fun s t => s.1 ≤ t.1) := by
+      simpa [Gene.AscStarts, Gene.segs] using h
+    show (init.map (revRow n) ++ [revRow n (last, k)]).Pairwise (fun a b => a.start ≤ b.start)
+    have e : init.map (revRow n) ++ [revRow n (last, k)] = (init ++ [(last, k)]).map (revRow n) := by simp
+    rw [e]
+    rw [List.pairwise_map] at h' ⊢
+    exact h'
+
+/-- the GFF route on the conformant rows of a gene (listed by ascending start): succeeds iff the reference translates,
+and then builds the region with the gene's name, strand and positions and the computed translation -/
+theorem gff_region (g : Gene) (ref : List Nat) (hoff : g.Offset) (hst : g.AscStarts) :
     regionFromGFF g.rows ref =
       (translateGo true (g.coding ref)).map (fun tr => ⟨g.name, g.strand, g.positions, tr⟩) := by
+  have hasc := rows_ascending g hst
   cases g with
   | fwd n k s0 rest t =>
     simp only [Gene.Offset] at hoff
     have hp := positions_equiv_forward n k s0 rest hoff
     show regionFromGFF (contRow n (s0, k) :: rest.map (contRow n)) ref = _
-    rw [gff_plus _ _ _ rfl (by intro r hr; obtain ⟨x, _, rfl⟩ := List.mem_map.1 hr; rfl)]
+    rw [gff_plus _ _ _ hasc rfl (by intro r hr; obtain ⟨x, _, rfl⟩ := List.mem_map.1 hr; rfl)]
     have hfold : contRow n (s0, k) :: rest.map (contRow n) = fwdRows n k s0 rest := rfl
     rw [hfold, hp]
     rfl
@@ -221,13 +247,13 @@ theorem gff_region (g : Gene) (ref : List Nat) (hoff : g.Offset) :
     cases init with
     | nil =>
       show regionFromGFF [revRow n (last, k)] ref = _
-      rw [gff_minus _ _ _ rfl (by intro r hr; cases hr)]
+      rw [gff_minus _ _ _ hasc rfl (by intro r hr; cases hr)]
       have hfold : [revRow n (last, k)] = revRows n k [] last := rfl
       rw [hfold, hp]
       rfl
     | cons x xs =>
       show regionFromGFF (revRow n x :: (xs.map (revRow n) ++ [revRow n (last, k)])) ref = _
-      rw [gff_minus _ _ _ rfl (by
+      rw [gff_minus _ _ _ (show Ascending (revRow n x :: (xs.map (revRow n) ++ [revRow n (last, k)])) from hasc) rfl (by
         intro r hr
         rcases List.mem_append.1 hr with hr | hr
         · obtain ⟨y, _, rfl⟩ := List.mem_map.1 hr; rfl
@@ -241,29 +267,37 @@ theorem coding_length (g : Gene) (ref : List Nat) : (g.coding ref).length = g.po
 
 /-! ### part 1: one gene, both ways -/
 
+/-- the GenBank half of `region_equiv` (no hypothesis on the order of the segments) -/
+theorem genbank_region_faithful (f : GbFeature) (g : Gene) (ref : List Nat) (hd : Describes f g) (hor : g.Oriented)
+    (hf : g.Faithful ref) : regionFromGenbank f = some g.region := by
+  have hm : g.positions.length % 3 = 0 := by
+    rw [← coding_length g ref]
+    exact Gofasta.Props.C04.translate_some_mod3 _ _ (Nat.le_refl _) _ hf
+  rw [genbank_region f g hd hor, if_neg (by omega)]
+
 /-- **region_equiv** - a gene written as a GenBank CDS feature (any of the five location shapes, codon_start = k+1)
 and as its conformant GFF3 CDS rows gives the SAME region (name, strand, positions, reference amino acids) by both
 routes, provided the translation qualifier is the translation of the reference. -/
 theorem region_equiv (f : GbFeature) (g : Gene) (ref : List Nat) (hd : Describes f g) (hoff : g.Offset)
-    (hor : g.Oriented) (hf : g.Faithful ref) :
+    (hst : g.AscStarts) (hor : g.Oriented) (hf : g.Faithful ref) :
     regionFromGenbank f = some g.region ∧ regionFromGFF g.rows ref = some g.region := by
   have hm : g.positions.length % 3 = 0 := by
     rw [← coding_length g ref]
     exact Gofasta.Props.C04.translate_some_mod3 _ _ (Nat.le_refl _) _ hf
   constructor
   · rw [genbank_region f g hd hor, if_neg (by omega)]
-  · rw [gff_region g ref hoff, hf]
+  · rw [gff_region g ref hoff hst, hf]
     rfl
 
 /-- **fields_equiv** - without the proviso: whenever both routes succeed, positions and name agree; the strand
 agrees for an oriented gene; the reference amino acids agree IF AND ONLY IF the translation qualifier is the
 translation of the reference (the GenBank route copies the qualifier text, the GFF route translates) -/
 theorem fields_equiv (f : GbFeature) (g : Gene) (ref : List Nat) (r1 r2 : Region) (hd : Describes f g)
-    (hoff : g.Offset) (h1 : regionFromGenbank f = some r1) (h2 : regionFromGFF g.rows ref = some r2) :
+    (hoff : g.Offset) (hst : g.AscStarts) (h1 : regionFromGenbank f = some r1) (h2 : regionFromGFF g.rows ref = some r2) :
     r1.positions = r2.positions ∧ r1.name = r2.name ∧ (g.Oriented → r1.strand = r2.strand) ∧
       (r1.translation = r2.translation ↔ g.Faithful ref) := by
   rw [genbank_region' f g hd] at h1
-  rw [gff_region g ref hoff] at h2
+  rw [gff_region g ref hoff hst] at h2
   split at h1
   · cases h1
   · simp only [Option.some.injEq] at h1
@@ -332,6 +366,15 @@ theorem oriented_of_asc (g : Gene) (h : AscSegs g.segs) (h2 : g.strand = -1 → 
       | none => simp at hb
       | some b =>
         exact ⟨b, x, rfl, rfl, (head_le_last _ hp x b rfl hb).2 (by simp)⟩
+
+/-- ascending, non-touching segments none of which is written backwards (a..b with a ≤ b+1) start in ascending order -/
+theorem ascStarts_of_asc (g : Gene) (h : AscSegs g.segs) (hseg : ∀ s ∈ g.segs, s.1 ≤ s.2 + 1) : g.AscStarts := by
+  unfold Gene.AscStarts
+  unfold AscSegs at h
+  refine List.Pairwise.imp_of_mem ?_ h
+  intro s t hs _ hst
+  have := hseg s hs
+  omega
 
 /-- a faithful gene has at least one codon (the stop) -/
 theorem faithful_long (g : Gene) (ref : List Nat) (hf : g.Faithful ref) : 3 ≤ g.positions.length := by
@@ -501,19 +544,22 @@ inductive AllDescribe : List GbFeature → List Gene → Prop where
   | nil : AllDescribe [] []
   | cons {f g fs gs} : Describes f g → AllDescribe fs gs → AllDescribe (f :: fs) (g :: gs)
 
-theorem gff_region_faithful (g : Gene) (ref : List Nat) (hoff : g.Offset) (hf : g.Faithful ref) :
+theorem gff_region_faithful (g : Gene) (ref : List Nat) (hoff : g.Offset) (hst : g.AscStarts) (hf : g.Faithful ref) :
     regionFromGFF g.rows ref = some g.region := by
-  rw [gff_region g ref hoff, hf]; rfl
+  rw [gff_region g ref hoff hst, hf]; rfl
 
-theorem mapM_gff (ref : List Nat) : ∀ (genes : List Gene), (∀ g ∈ genes, g.Offset) → (∀ g ∈ genes, g.Faithful ref) →
+theorem mapM_gff (ref : List Nat) : ∀ (genes : List Gene), (∀ g ∈ genes, g.Offset) → (∀ g ∈ genes, g.AscStarts) →
+    (∀ g ∈ genes, g.Faithful ref) →
     (genes.map Gene.rows).mapM (fun g => regionFromGFF g ref) = some (genes.map Gene.region) := by
   intro genes
   induction genes with
-  | nil => intro _ _; rfl
+  | nil => intro _ _ _; rfl
   | cons g t ih =>
-    intro hoff hf
-    rw [List.map_cons, List.mapM_cons, gff_region_faithful g ref (hoff g List.mem_cons_self) (hf g List.mem_cons_self),
-      ih (fun g hg => hoff g (List.mem_cons_of_mem _ hg)) (fun g hg => hf g (List.mem_cons_of_mem _ hg))]
+    intro hoff hst hf
+    rw [List.map_cons, List.mapM_cons,
+      gff_region_faithful g ref (hoff g List.mem_cons_self) (hst g List.mem_cons_self) (hf g List.mem_cons_self),
+      ih (fun g hg => hoff g (List.mem_cons_of_mem _ hg)) (fun g hg => hst g (List.mem_cons_of_mem _ hg))
+        (fun g hg => hf g (List.mem_cons_of_mem _ hg))]
     rfl
 
 theorem mapM_genbank (ref : List Nat) : ∀ (fs : List GbFeature) (genes : List Gene), AllDescribe fs genes →
@@ -524,7 +570,7 @@ theorem mapM_genbank (ref : List Nat) : ∀ (fs : List GbFeature) (genes : List 
   | nil => intro _ _ _; rfl
   | @cons f g fs gs hd _ ih =>
     intro hoff hor hf
-    rw [List.mapM_cons, (region_equiv f g ref hd (hoff g List.mem_cons_self) (hor g List.mem_cons_self) (hf g List.mem_cons_self)).1,
+    rw [List.mapM_cons, genbank_region_faithful f g ref hd (hor g List.mem_cons_self) (hf g List.mem_cons_self),
       ih (fun g hg => hoff g (List.mem_cons_of_mem _ hg)) (fun g hg => hor g (List.mem_cons_of_mem _ hg))
         (fun g hg => hf g (List.mem_cons_of_mem _ hg))]
     rfl
@@ -545,7 +591,7 @@ theorem gid_nodup (genes : List Gene) (hnd : (genes.map Gene.name).Nodup) : (gen
 /-- the GFF route on a whole annotation: the same regions, sorted (stably) by smallest position -/
 theorem gff_annotation (rows : List GffRow) (genes : List Gene) (ref : List Nat)
     (hrows : cdsRows rows = genes.flatMap Gene.rows)
-    (hoff : ∀ g ∈ genes, g.Offset) (hf : ∀ g ∈ genes, g.Faithful ref)
+    (hoff : ∀ g ∈ genes, g.Offset) (hst : ∀ g ∈ genes, g.AscStarts) (hf : ∀ g ∈ genes, g.Faithful ref)
     (hnd : (genes.map Gene.name).Nodup) (hne : ∀ g ∈ genes, g.name ≠ "") :
     regionsFromGFF rows ref = some (sortStable regionStartLt (genes.map Gene.region),
       codes (sortStable regionStartLt (genes.map Gene.region)) ref.length) := by
@@ -557,7 +603,7 @@ theorem gff_annotation (rows : List GffRow) (genes : List Gene) (ref : List Nat)
     apply List.map_congr_left
     intro g hg
     exact filter_group genes hnd' g hg
-  rw [hg, mapM_gff ref genes hoff hf]
+  rw [hg, mapM_gff ref genes hoff hst hf]
   have hnamed : (genes.map Gene.region).filter (fun r => r.name != "") = genes.map Gene.region := by
     rw [List.filter_eq_self]
     intro r hr
@@ -586,13 +632,13 @@ mRNA, exon lines may be interleaved) the GFF route returns the region list of th
 smallest position, and the same intergenic list -/
 theorem annotation_equiv (fs : List GbFeature) (rows : List GffRow) (genes : List Gene) (ref : List Nat)
     (hfs : AllDescribe fs genes) (hrows : cdsRows rows = genes.flatMap Gene.rows)
-    (hoff : ∀ g ∈ genes, g.Offset) (hor : ∀ g ∈ genes, g.Oriented) (hf : ∀ g ∈ genes, g.Faithful ref)
+    (hoff : ∀ g ∈ genes, g.Offset) (hst : ∀ g ∈ genes, g.AscStarts) (hor : ∀ g ∈ genes, g.Oriented) (hf : ∀ g ∈ genes, g.Faithful ref)
     (hnd : (genes.map Gene.name).Nodup) (hne : ∀ g ∈ genes, g.name ≠ "")
     (rsB interB : _) (hB : regionsFromGenbank fs ref.length = some (rsB, interB))
     (rsF interF : _) (hF : regionsFromGFF rows ref = some (rsF, interF)) :
     rsB = genes.map Gene.region ∧ rsF = sortStable regionStartLt rsB ∧ rsF.Perm rsB ∧ interF = interB := by
   rw [genbank_annotation fs genes ref _ hfs hoff hor hf] at hB
-  rw [gff_annotation rows genes ref hrows hoff hf hnd hne] at hF
+  rw [gff_annotation rows genes ref hrows hoff hst hf hnd hne] at hF
   simp only [Option.some.injEq, Prod.mk.injEq] at hB hF
   obtain ⟨rfl, rfl⟩ := hB
   obtain ⟨rfl, rfl⟩ := hF
@@ -602,23 +648,23 @@ theorem annotation_equiv (fs : List GbFeature) (rows : List GffRow) (genes : Lis
 query row) pair -/
 theorem variants_equiv (fs : List GbFeature) (rows : List GffRow) (genes : List Gene) (ref : List Nat)
     (hfs : AllDescribe fs genes) (hrows : cdsRows rows = genes.flatMap Gene.rows)
-    (hoff : ∀ g ∈ genes, g.Offset) (hor : ∀ g ∈ genes, g.Oriented) (hf : ∀ g ∈ genes, g.Faithful ref)
+    (hoff : ∀ g ∈ genes, g.Offset) (hst : ∀ g ∈ genes, g.AscStarts) (hor : ∀ g ∈ genes, g.Oriented) (hf : ∀ g ∈ genes, g.Faithful ref)
     (hnd : (genes.map Gene.name).Nodup) (hne : ∀ g ∈ genes, g.name ≠ "")
     (rsB : List Region) (interB : List Nat) (hB : regionsFromGenbank fs ref.length = some (rsB, interB))
     (rsF : List Region) (interF : List Nat) (hF : regionsFromGFF rows ref = some (rsF, interF))
     (refRow qRow : List Nat) (v : Variant) :
     v ∈ getVariantsPair refRow qRow rsF interF ↔ v ∈ getVariantsPair refRow qRow rsB interB := by
-  obtain ⟨_, _, hp, hi⟩ := annotation_equiv fs rows genes ref hfs hrows hoff hor hf hnd hne rsB interB hB rsF interF hF
+  obtain ⟨_, _, hp, hi⟩ := annotation_equiv fs rows genes ref hfs hrows hoff hst hor hf hnd hne rsB interB hB rsF interF hF
   rw [hi]
   exact variants_perm refRow qRow rsF rsB interB hp v
 
 /-- both routes succeed on a faithful annotation (so the hypotheses hB, hF above are never vacuous) -/
 theorem both_succeed (fs : List GbFeature) (rows : List GffRow) (genes : List Gene) (ref : List Nat)
     (hfs : AllDescribe fs genes) (hrows : cdsRows rows = genes.flatMap Gene.rows)
-    (hoff : ∀ g ∈ genes, g.Offset) (hor : ∀ g ∈ genes, g.Oriented) (hf : ∀ g ∈ genes, g.Faithful ref)
+    (hoff : ∀ g ∈ genes, g.Offset) (hst : ∀ g ∈ genes, g.AscStarts) (hor : ∀ g ∈ genes, g.Oriented) (hf : ∀ g ∈ genes, g.Faithful ref)
     (hnd : (genes.map Gene.name).Nodup) (hne : ∀ g ∈ genes, g.name ≠ "") :
     (regionsFromGenbank fs ref.length).isSome = true ∧ (regionsFromGFF rows ref).isSome = true := by
-  rw [genbank_annotation fs genes ref _ hfs hoff hor hf, gff_annotation rows genes ref hrows hoff hf hnd hne]
+  rw [genbank_annotation fs genes ref _ hfs hoff hor hf, gff_annotation rows genes ref hrows hoff hst hf hnd hne]
   exact ⟨rfl, rfl⟩
 
 /-- **annotation_equal_of_sorted** - when the file lists the genes by non-decreasing smallest coding position (the order
@@ -626,11 +672,11 @@ NCBI writes them in), the two routes return literally the same pair (regions, in
 `getVariantsPair` returns the same list -/
 theorem annotation_equal_of_sorted (fs : List GbFeature) (rows : List GffRow) (genes : List Gene) (ref : List Nat)
     (hfs : AllDescribe fs genes) (hrows : cdsRows rows = genes.flatMap Gene.rows)
-    (hoff : ∀ g ∈ genes, g.Offset) (hor : ∀ g ∈ genes, g.Oriented) (hf : ∀ g ∈ genes, g.Faithful ref)
+    (hoff : ∀ g ∈ genes, g.Offset) (hst : ∀ g ∈ genes, g.AscStarts) (hor : ∀ g ∈ genes, g.Oriented) (hf : ∀ g ∈ genes, g.Faithful ref)
     (hnd : (genes.map Gene.name).Nodup) (hne : ∀ g ∈ genes, g.name ≠ "")
     (hs : genes.Pairwise (fun g h => minPos g.positions ≤ minPos h.positions)) :
     regionsFromGFF rows ref = regionsFromGenbank fs ref.length := by
-  rw [genbank_annotation fs genes ref _ hfs hoff hor hf, gff_annotation rows genes ref hrows hoff hf hnd hne]
+  rw [genbank_annotation fs genes ref _ hfs hoff hor hf, gff_annotation rows genes ref hrows hoff hst hf hnd hne]
   have hsorted : Sorted regionStartLt (genes.map Gene.region) := by
     unfold Sorted
     rw [List.pairwise_map]
@@ -654,6 +700,14 @@ theorem cdsRows_genes (genes : List Gene) : cdsRows (genes.flatMap Gene.rows) = 
 strand from first > last and says reverse; the GFF rows say '+' -/
 example : (regionFromGenbank ⟨"g", .join, [(10, 14), (3, 6)], 1, stringToBytes "KK"⟩).map (·.strand) = some (-1) ∧
     (regionFromGFF (fwdRows "g" 0 (10, 14) [((3, 6), 0)]) (stringToBytes "AAAAAAAAAAAAAAAAAAAA")).map (·.strand) = some 1 := by
+  decide +kernel
+
+/-- AscStarts: the same gene, join(10..14,3..6) with rows (10,14) then (3,6). The GenBank route keeps the coding order
+10..14,3..6; the GFF route (since fix a19382f) orders the rows by start and reads 3..6,10..14 -/
+example : (regionFromGenbank ⟨"g", .join, [(10, 14), (3, 6)], 1, stringToBytes "KK"⟩).map (·.positions) =
+      some [10, 11, 12, 13, 14, 3, 4, 5, 6] ∧
+    (regionFromGFF (fwdRows "g" 0 (10, 14) [((3, 6), 0)]) (stringToBytes "AAAAAAAAAAAAAAAAAAAA")).map (·.positions) =
+      some [3, 4, 5, 6, 10, 11, 12, 13, 14] := by
   decide +kernel
 
 /-- Oriented (reverse): complement(5..5) with codon_start 2 (a one-base location): strands differ, no positions -/
@@ -687,7 +741,7 @@ example : (regionFromGenbank cxF).isSome = true ∧
 
 /-- distinct names: two genes called B share the ID cds-B, the GFF route merges their rows into one region -/
 example : (regionsFromGFF (fwdRows "B" 0 (4, 12) [] ++ fwdRows "B" 0 (1, 3) []) (stringToBytes "ATGATGAAATAACC")).map
-      (fun x => x.1.map (·.positions)) = some [[4, 5, 6, 7, 8, 9, 10, 11, 12, 1, 2, 3]] ∧
+      (fun x => x.1.map (·.positions)) = some [[1, 2, 3, 4, 5, 6, 7, 8, 9, 10, 11, 12]] ∧
     (regionsFromGenbank [⟨"B", .range, [(4, 12)], 1, stringToBytes "MK"⟩, ⟨"B", .range, [(1, 3)], 1, []⟩] 14).map
       (fun x => x.1.map (·.positions)) = some [[4, 5, 6, 7, 8, 9, 10, 11, 12], [1, 2, 3]] := by
   decide +kernel
@@ -711,13 +765,15 @@ example : (regionsFromGFF (fwdRows "A" 0 (4, 12) [] ++ fwdRows "B" 0 (1, 3) []) 
 /-- the same with the orientation hypothesis replaced by: segments written in ascending order -/
 theorem variants_equiv_asc (fs : List GbFeature) (rows : List GffRow) (genes : List Gene) (ref : List Nat)
     (hfs : AllDescribe fs genes) (hrows : cdsRows rows = genes.flatMap Gene.rows)
-    (hoff : ∀ g ∈ genes, g.Offset) (hasc : ∀ g ∈ genes, AscSegs g.segs) (hf : ∀ g ∈ genes, g.Faithful ref)
+    (hoff : ∀ g ∈ genes, g.Offset) (hasc : ∀ g ∈ genes, AscSegs g.segs) (hseg : ∀ g ∈ genes, ∀ s ∈ g.segs, s.1 ≤ s.2)
+    (hf : ∀ g ∈ genes, g.Faithful ref)
     (hnd : (genes.map Gene.name).Nodup) (hne : ∀ g ∈ genes, g.name ≠ "")
     (rsB : List Region) (interB : List Nat) (hB : regionsFromGenbank fs ref.length = some (rsB, interB))
     (rsF : List Region) (interF : List Nat) (hF : regionsFromGFF rows ref = some (rsF, interF))
     (refRow qRow : List Nat) (v : Variant) :
     v ∈ getVariantsPair refRow qRow rsF interF ↔ v ∈ getVariantsPair refRow qRow rsB interB :=
   variants_equiv fs rows genes ref hfs hrows hoff
+    (fun g hg => ascStarts_of_asc g (hasc g hg) (fun s hs => Nat.le_succ_of_le (hseg g hg s hs)))
     (fun g hg => oriented_of_asc_faithful g ref (hasc g hg) (hf g hg)) hf hnd hne rsB interB hB rsF interF hF refRow qRow v
 
 /-! ### non-vacuity: a two-gene annotation satisfying every hypothesis -/
@@ -757,10 +813,17 @@ theorem nv_hyps : AllDescribe nvFs [nvA, nvB] ∧ (∀ g ∈ [nvA, nvB], g.Offse
       false_imp_iff, implies_true]
     decide +kernel
 
+theorem nv_ascStarts : ∀ g ∈ [nvA, nvB], g.AscStarts := by
+  intro g hg
+  simp only [List.mem_cons, List.not_mem_nil, or_false] at hg
+  rcases hg with rfl | rfl
+  · show List.Pairwise _ [(2, 8), (12, 14)]; simp
+  · show List.Pairwise _ [(18, 26)]; simp
+
 /-- the theorem applies: both routes return the same pair -/
 example : regionsFromGFF ([nvA, nvB].flatMap Gene.rows) nvRef = regionsFromGenbank nvFs nvRef.length := by
   obtain ⟨h1, h2, h3, h4, h5, h6, h7⟩ := nv_hyps
-  exact annotation_equal_of_sorted nvFs _ [nvA, nvB] nvRef h1 (cdsRows_genes _) h2
+  exact annotation_equal_of_sorted nvFs _ [nvA, nvB] nvRef h1 (cdsRows_genes _) h2 nv_ascStarts
     (fun g hg => oriented_of_asc_faithful g nvRef (h3 g hg) (h4 g hg)) h4 h5 h6 h7
 
 /-- and this is the pair -/
@@ -836,10 +899,11 @@ theorem getAAsPair_congr (ref q cols : List Nat) (r1 r2 : Region) (hn : r1.name 
 the reference on the gene's whole codons" (e.g. a partial CDS without stop codon, where the appended '*' makes the
 two translation strings differ): the amino-acid and codon records of the two regions are the same -/
 theorem aas_equiv_weak (f : GbFeature) (g : Gene) (ref : List Nat) (r1 r2 : Region) (hd : Describes f g)
-    (hoff : g.Offset) (hor : g.Oriented) (h1 : regionFromGenbank f = some r1) (h2 : regionFromGFF g.rows ref = some r2)
+    (hoff : g.Offset) (hst : g.AscStarts) (hor : g.Oriented) (h1 : regionFromGenbank f = some r1)
+    (h2 : regionFromGFF g.rows ref = some r2)
     (hw : ∀ i, 3 * i + 3 ≤ r1.positions.length → r1.translation.getD i 0 = r2.translation.getD i 0)
     (refRow qRow cols : List Nat) : getAAsPair refRow qRow cols r1 = getAAsPair refRow qRow cols r2 := by
-  obtain ⟨hp, hn, hs, _⟩ := fields_equiv f g ref r1 r2 hd hoff h1 h2
+  obtain ⟨hp, hn, hs, _⟩ := fields_equiv f g ref r1 r2 hd hoff hst h1 h2
   exact getAAsPair_congr refRow qRow cols r1 r2 hn (hs hor) hp hw
 
 /-- a CDS without stop codon (3..8 = ATG AAA, qualifier MK): the regions differ in the translation (MK* against MK),
